@@ -717,6 +717,27 @@ def pick_race(rng, g, v, profile):
         a['c']['allocs'] = [[kk[0], kk[1], max(1, g.amount_for(v, kk, a['c']['uuid'], share=3))]]
         kb = rng.choice(keys)
         b['c']['allocs'] = [[kb[0], kb[1], max(1, v.remaining(kb, b['c']['uuid']) + 1)]]
+    # directed variant: the move shape against a plain write - a POST that EMPTIES an existing consumer which holds
+    # allocations (and may write another consumer) races with a write that re-writes the same consumer, both carrying the
+    # consumer's current generation: exactly one of the two may succeed
+    ws = [o for o in out if o['op'] in ('alloc_put', 'alloc_post') and o['mv'] >= 28]
+    posts = [o for o in ws if o['op'] == 'alloc_post']
+    holders = [c for c in v.consumers if v.by_consumer.get(c)]
+    if posts and len(ws) >= 2 and holders and rng.random() < profile.get('p_move', 0.25):
+        mover = posts[0]
+        other = [o for o in ws if o is not mover][0]
+        cu = cons if cons in holders else rng.choice(holders)
+        cur = v.consumers[cu]
+        e = g.consumer_req(v, mover['mv'], cu)
+        e['gen'], e['allocs'] = cur['gen'], []
+        rest = [c for c in mover['cs'] if c['uuid'] != cu][:1]
+        mover['cs'] = [e] + rest if rng.random() < 0.5 else rest + [e]
+        w = g.consumer_req(v, other['mv'], cu, empty_ok=False)
+        w['gen'] = cur['gen']
+        if other['op'] == 'alloc_put':
+            other['c'] = w
+        else:
+            other['cs'] = [w] + [c for c in other['cs'] if c['uuid'] != cu][:1]
     # project / user / consumer-type names no request has used before, the SAME in all racing writes: the records are
     # created on first use (look-up, then insert), and losing that race must not surface
     if rng.random() < profile.get('p_new_names', 0.15):
